@@ -344,6 +344,17 @@ def c04h(tree, ob):
             ob.violate(MSGS, anchor, 'fields_desc', 'field layout {} differs from RFC 9174 {}'.format(got, layout), tree.klass(MSGS, anchor))
         else:
             ob.site(MSGS, node, 'type {} = {} layout {}'.format(code, anchor, got))
+    # MSG_REJECT: both fields are one octet, so the table above cannot tell their order.  RFC 9174 (figure "Format of
+    # MSG_REJECT Messages") has the Reason Code first and the Rejected Message Header second; the field bound to the
+    # Reason enumeration is the reason, the one send_reject() fills from pkt.msg_id is the rejected header.
+    rej = schema.fields_desc(tree, MSGS, 'RejectMsg', inherit=False)
+    names = [f.name for f in rej]
+    if 'reason' in names and len(names) == 2:
+        if names[0] == 'reason':
+            ob.site(MSGS, tree.klass(MSGS, 'RejectMsg'), 'MSG_REJECT = (reason code, rejected message header)')
+        else:
+            ob.violate(MSGS, 'RejectMsg', 'fields_desc order ({}, {})'.format(*names), 'MSG_REJECT is encoded and decoded as (rejected message header, reason code); RFC 9174 has the reason code first: an '
+                       'independent peer reads the rejected type as the reason and vice versa', tree.klass(MSGS, 'RejectMsg'))
     for code in sorted(set(table) - set(RFC9174_MESSAGES)):
         ob.violate(MSGS, '<module>', src(table[code][1]), 'type code {} is not an RFC 9174 message type'.format(code), table[code][1])
     # header is one octet
